@@ -313,6 +313,16 @@ static Case cases[] = {
          v.Insert("k", Memory::Move(v[0]));   // a non-object becomes an object holding the inserted value
          return (v.IsObject() && v.Size() == 1) ? 0 : (printf("expected an object with one member\n"), 1);
      }},
+    {"value_merge_move_own_child", [] {
+         Value<char> v = JSON::Parse("[[1,2,3,4,5,6,7,8,9,\"a long enough string to live on the heap\"],2]");
+         v.Merge(Memory::Move(v[0]));
+         return (v.Size() >= 10) ? 0 : (printf("expected the children appended, got %u\n", v.Size()), 1);
+     }},
+    {"value_append_move_own_child_object", [] {
+         Value<char> v = JSON::Parse("{\"a\":1,\"child\":{\"b\":2,\"c\":3,\"d\":4,\"e\":5,\"f\":6,\"g\":7,\"h\":8}}");
+         v += Memory::Move(v["child"]);   // object += object merges; the child lives in the table that grows
+         return (v.IsObject() && v.Size() >= 8) ? 0 : (printf("expected the merged members\n"), 1);
+     }},
 };
 
 int main(int argc, char **argv) {
